@@ -6,6 +6,7 @@ import xzgen, gen
 
 TRUSTED = [
  'Coq 8.16.1 kernel; vm_compute for the bound table; no native_compute', 'axioms: none',
+ 'theorem xz_stream_is_valid_and_lossless: the specification decoder accepts every Stream the container model writes (plain LZMA2 chain, Check None/CRC32/CRC64), consumes exactly its bytes and returns the Block contents; tied to the real encoder by xzsyms: real single-threaded encoder files (multi-Block via full flush) = stream_bytes of their traced structure',
  'independent decoder = the Coq specification (Xz.v etc., strict: match distances must be below the DECLARED dictionary size); it recomputes sizes, CRC32s, Check, padding, Index and Backward Size from the data, so acceptance means truthful metadata',
  'translator: harness/gen_bounds.c prints lzma_block_buffer_bound/lzma_stream_buffer_bound around every branch (thresholds by bisection on the real functions); the Coq model must reproduce the table',
  'match finder / optimum parser not modelled: validity of each produced stream is decided per run by the specification decoder',
@@ -86,9 +87,39 @@ def run(ctx):
         parts = o.split('|')
         if len(parts) == 3 and parts[0].strip() == '0' and parts[1].split() and parts[1].split()[-1].endswith(':1'):
             hist_out.append((d, lab, parts[2].strip()))
+    # ---- container model: files written by the single-threaded Stream encoder for the plain LZMA2 chain (one or several
+    # Blocks via LZMA_FULL_FLUSH; Check None/CRC32/CRC64) must be byte for byte the model serialisation stream_bytes (subject
+    # of xz_stream_is_valid_and_lossless) of the Blocks, chunks and symbols read from them
+    xl, xm = [], []
+    for i in range(16 if ctx.quick() else 300):
+        n = rng.choice([0, 1, 100, 2500, rng.randrange(0, 8000)])
+        d = (xzgen.gen_data(rng, max(1, n // 6)) * 7)[:n] if rng.random() < 0.7 else bytes(rng.getrandbits(8) for _ in range(n))
+        steps = []; left = n
+        for j in range(rng.randrange(0, 4)):
+            k = rng.randrange(0, left + 1); left -= k; steps.append('%s%d' % (rng.choice('FFS'), k))
+        steps.append('R%d' % left)
+        fs_ = 'lzma2:dict=%s,lc=%d,lp=%d,pb=%d,mf=%s' % (rng.choice(['4KiB', '64KiB', '1MiB', '12KiB']), rng.randrange(4), 0, rng.randrange(5), rng.choice(['hc4', 'bt4']))
+        xl.append('flush 4 %d %d %s %s %s' % (rng.choice([0, 1, 4]) << 8, rng.randrange(1 << 20), fs_, ';'.join(steps), d.hex() or '-')); xm.append((d, fs_ + ' ' + ';'.join(steps)))
+    xo, xf = run_lines(fl, xl)
+    for f in xf: ctx.violation('encoder crashed in a flush history', {'line': (f[0] or '')[:20000], 'stderr': f[1], 'kind': 'crash'})
+    xt, xtm = [], []
+    for (d, lab), o in zip(xm, xo):
+        if o is None: continue
+        parts = o.split('|')
+        if len(parts) == 3 and parts[0].strip() == '0' and parts[1].split() and parts[1].split()[-1].endswith(':1'):
+            xt.append('xzsyms ' + parts[2].strip()); xtm.append((d, lab, parts[2].strip()))
+    xto, xtf = run_lines(orc, xt)
+    if xtf: raise BuildError('oracle failed %r' % (xtf[0],))
+    container_viol = []
+    nblocks = 0
+    for (d, lab, hx), o in zip(xtm, xto):
+        t = o.split()
+        if t[0] != 'ok' or (bytes.fromhex(t[3]) if t[3] != '-' else b'') != d:
+            container_viol.append(dict(why='the .xz file written by the Stream encoder is not the model serialisation of its own Blocks (%s): the proven container model no longer describes the encoder, or the file does not hold the input' % ' '.join(t[:3]), label=lab, file=d.hex(), stream=hx[:100000]))
+        else: nblocks += int(t[2].split(';')[0].split('=')[1])
     outs, fails = run_lines(enc, lines)
     for f in fails: ctx.violation('encoder crashed', {'line': (f[0] or '')[:20000], 'stderr': f[1], 'kind': 'crash'})
-    viol = list(big_viol); olines, ometa = [], []
+    viol = list(big_viol) + container_viol; olines, ometa = [], []
     for (d, lab, kind), o in zip(meta, outs):
         if o is None: continue
         t = o.split()
@@ -111,7 +142,7 @@ def run(ctx):
     ctx.cov['evaluations'] = len(lines) + len(olines)
     ctx.cov['distinct_nontrivial'] = len(distinct)
     ctx.cov['rule'] = 'outputs of easy/stream/MT/alone/single-call encoders over presets, generated chains and inputs; each output must be accepted by the strict Coq specification decoder with the exact input recovered and every byte consumed; single-call encoders get exactly bound(n) bytes for incompressible n around 64 KiB multiples; distinct = (encoder, size/256)'
-    ctx.cov['input_distribution'] = dict(encodes=len(lines), spec_decodes=len(olines))
+    ctx.cov['input_distribution'] = dict(encodes=len(lines), spec_decodes=len(olines), container_traces=len(xt), container_blocks=nblocks)
     ctx.cov['samples'] = [meta[0][1], meta[-1][1]]
     if viol:
         v = min(viol, key=lambda x: len(x['file']))
